@@ -1623,3 +1623,161 @@ def reset_before_handoff(ctx, rule, qual, buf, handoff):
             return (v,)
     paths.run(fn, D(), 'dirty')
     R.check(bool(seen) and not bad, rule, f'{qual} | {buf} before {handoff}', f'{buf} is reset before the unit is handed to {handoff}', f'{handoff}(...) is called while {buf} still holds the completed unit: if the consumer raises, the reset after the call is skipped and the next unit is appended to the old one (dropped as an overflow, or delivered with the old bytes in front)', p.loc(bad[0]) if bad else p.loc(fn))
+
+
+# ---------------------------------------------------------------------------------------------------------------------
+def falsy_enum_default(ctx, rule, modules):
+    """`value or Enum.MEMBER` replaces every falsy value by the default - including the enum's own member 0 (PUBLIC = 0,
+    SUCCESS = 0 ...), which is a legitimate choice of the caller.  Flagged: an `or` whose last operand is a member of an
+    enum class of the program that has a member with value 0 (the presence test for such a value is `is None`)."""
+    R, p = ctx.r, ctx.p
+    zero = set()
+    for cn, ci in p.classes.items():
+        if any(isinstance(v, ast.Constant) and isinstance(v.value, int) and not isinstance(v.value, bool) and v.value == 0 for v in ci.assigns.values()) and any('Enum' in b.split('.')[-1] or 'Flag' in b.split('.')[-1] for x in p.mro(cn) for b in x.bases):
+            zero.add(ci.name)
+
+    def hits(tree, zero_):
+        out = []
+        for b in ast.walk(tree):
+            if isinstance(b, ast.BoolOp) and isinstance(b.op, ast.Or) and not isinstance(b.values[0], (ast.Compare, ast.Call)):
+                parts = (dotted(b.values[-1]) or '').split('.')
+                if len(parts) >= 2 and parts[-2] in zero_:
+                    out.append(b)
+        return out
+    n = 0
+    for mn in modules:
+        m = p.modules.get(mn)
+        if m is None:
+            R.bad(rule, mn, 'anchor missing')
+            continue
+        n += sum(1 for b in ast.walk(m.tree) if isinstance(b, ast.BoolOp) and isinstance(b.op, ast.Or))
+        for b in hits(m.tree, zero):
+            R.bad(rule, f'{p.qual_of(b)} | {norm(b)[:60]}', f'`{norm(b)[:80]}` takes the default for every falsy value, i.e. also when the value is the member 0 of {(dotted(b.values[-1]) or "").split(".")[-2]} (a legitimate choice): the caller\'s choice is silently replaced', f'{m.rel}:{b.lineno}')
+    ctl = ast.parse('a = self.kind or Kind.B\nb = self.kind if self.kind is not None else Kind.B\n')
+    R.check(len(hits(ctl, {'Kind'})) == 1 and len(zero) >= 50, rule, f'{", ".join(modules)} | `or` defaults', f'{n} `or` expressions, none defaults to a member of one of the {len(zero)} enums that have a member 0 (positive control matched)', 'positive control not matched / enum census too small')
+
+
+def rebound_parsed_names(ctx, rule, modules, floor=1):
+    """In a hand-written parser the values read from the wire reach the constructor as they were read: a name bound by
+    struct.unpack / unpack_from is not assigned again in the function (zeroed, clamped, defaulted) - or the packet no longer
+    re-serialises to the bytes it was parsed from.  Instances: every function of `modules` that binds names that way."""
+    R, p = ctx.r, ctx.p
+
+    def scan(fn):
+        bound = {}
+        for st in walk_local(fn):
+            if isinstance(st, ast.Assign) and isinstance(st.value, (ast.Call, ast.Subscript)) and (dotted(st.value.func if isinstance(st.value, ast.Call) else getattr(st.value.value, 'func', None)) or '').startswith('struct.unpack'):
+                for t in st.targets:
+                    for x in ast.walk(t):
+                        if isinstance(x, ast.Name):
+                            bound[x.id] = min(bound.get(x.id, st.lineno), st.lineno)
+        # only what comes after the value was read (an initialisation before the read is not a replacement)
+        again = [st for st in walk_local(fn) if isinstance(st, ast.Assign) and not any(isinstance(c, ast.Call) and (dotted(c.func) or '').startswith('struct.unpack') for c in ast.walk(st.value))
+                 and any(isinstance(x, ast.Name) and isinstance(x.ctx, ast.Store) and x.id in bound and st.lineno > bound[x.id] for t in st.targets for x in ast.walk(t))
+                 and not any(isinstance(x, ast.Name) and x.id in bound for x in ast.walk(st.value))]
+        return bound, again
+    n = 0
+    for mn in modules:
+        m = p.modules.get(mn)
+        if m is None:
+            R.bad(rule, mn, 'anchor missing')
+            continue
+        for fn in [x for x in ast.walk(m.tree) if isinstance(x, FUNC)]:
+            bound, again = scan(fn)
+            if not bound:
+                continue
+            n += 1
+            for st in again:
+                R.bad(rule, f'{p.qual_of(fn)} | {norm(st)[:50]}', f'`{norm(st)[:70]}` replaces a value that was read from the wire by one that does not depend on it: the parsed object no longer re-serialises to the bytes it came from (and differs from what the sender built)', f'{m.rel}:{st.lineno}')
+    ctl = ast.parse('def f(data):\n    a, b = struct.unpack_from("<BH", data, 0)\n    if a != 255:\n        b = 0\n    return a, b\ndef g(data):\n    a, b = struct.unpack_from("<BH", data, 0)\n    b = b & 0xFFF\n    return a, b\n')
+    hits = [len(scan(f)[1]) for f in ctl.body]
+    R.check(hits == [1, 0] and n >= floor, rule, f'{", ".join(modules)} | parsers binding names by struct.unpack', f'{n} functions, no unpacked value replaced by an unrelated one (positive control matched)', f'control {hits} / {n} functions (floor {floor})')
+
+
+# ---------------------------------------------------------------------------------------------------------------------
+def clobbering_inner_loops(fn):
+    """(name, outer loop, inner loop, use) where a per-item value computed in an outer loop's body is overwritten by plain
+    assignments inside a nested loop and read again after it - the outer item then gets the last inner item's value."""
+    out = []
+    for outer in [x for x in walk_local(fn) if isinstance(x, (ast.For, ast.AsyncFor))]:
+        body = outer.body
+        for i, inner in enumerate(body):
+            if not isinstance(inner, (ast.For, ast.AsyncFor)):
+                continue
+            before = {}
+            for st in body[:i]:
+                if isinstance(st, ast.Assign) and not isinstance(st.value, ast.Constant) and not (isinstance(st.value, (ast.List, ast.Dict, ast.Set, ast.Tuple)) and not getattr(st.value, 'elts', getattr(st.value, 'keys', []))):
+                    for t in st.targets:
+                        if isinstance(t, ast.Name):
+                            before[t.id] = st
+            if not before:
+                continue
+            inner_targets = {x.id for x in ast.walk(inner.target) if isinstance(x, ast.Name)}
+            clobbered = {}
+            for st in ast.walk(inner):
+                if isinstance(st, ast.Assign):
+                    for t in st.targets:
+                        if isinstance(t, ast.Name) and t.id in before and t.id not in inner_targets and not any(isinstance(x, ast.Name) and x.id == t.id for x in ast.walk(st.value)):
+                            clobbered[t.id] = st
+            for name, st in clobbered.items():
+                for later in body[i + 1:]:
+                    stores = [x for x in ast.walk(later) if isinstance(x, ast.Name) and x.id == name and isinstance(x.ctx, ast.Store)]
+                    loads = [x for x in ast.walk(later) if isinstance(x, ast.Name) and x.id == name and isinstance(x.ctx, ast.Load)]
+                    if loads:
+                        out.append((name, outer, inner, loads[0], st))
+                        break
+                    if stores:
+                        break
+    return out
+
+
+def inner_loop_clobber(ctx, rule, modules):
+    """A value computed for the item of an outer loop, overwritten by a nested loop for each of its items, and used again
+    after the nested loop: the outer item ends up with the last inner item's value (a local reused for parent and child)."""
+    R, p = ctx.r, ctx.p
+    n = 0
+    for mn in modules:
+        m = p.modules.get(mn)
+        if m is None:
+            R.bad(rule, mn, 'anchor missing')
+            continue
+        for fn in [x for x in ast.walk(m.tree) if isinstance(x, FUNC)]:
+            nested = [l for l in walk_local(fn) if isinstance(l, (ast.For, ast.AsyncFor)) and any(isinstance(x, (ast.For, ast.AsyncFor)) for x in l.body)]
+            n += len(nested)
+            for name, outer, inner, use, st in clobbering_inner_loops(fn):
+                R.bad(rule, f'{p.qual_of(fn)} | {name}', f'`{name}` is computed for each item of the loop at line {outer.lineno}, overwritten for each item of the nested loop (`{norm(st)[:50]}`) and read again afterwards (line {use.lineno}): the outer item gets the value of its last inner item', f'{m.rel}:{st.lineno}')
+    ctl = ast.parse('def f(cs):\n    out = []\n    for c in cs:\n        perm = c.get("p")\n        ds = []\n        for d in c["ds"]:\n            perm = d.get("p")\n            ds.append(perm)\n        out.append((perm, ds))\n    return out\ndef g(cs):\n    for c in cs:\n        total = 0\n        for d in c:\n            total = total + d\n        use(total)\n')
+    hits = [len(clobbering_inner_loops(f)) for f in ctl.body]
+    R.check(hits == [1, 0] and n >= 1, rule, f'{", ".join(modules)} | nested loops', f'{n} nested loops, no per-item value clobbered by the inner loop (positive control matched)', f'control {hits}, {n} nested loops')
+
+
+def primitive_rebinding(ctx, rule, modules, floor=1):
+    """An asyncio.Event / Lock / Semaphore / Condition / Queue created in __init__ is the object waiters block on: another
+    method that assigns a new one to the same attribute strands everybody waiting on the old object (set() / release() then
+    go to the new one)."""
+    R, p = ctx.r, ctx.p
+    PRIM = ('asyncio.Event', 'asyncio.Lock', 'asyncio.Semaphore', 'asyncio.Condition', 'asyncio.Queue')
+
+    def rebinds(cls_node):
+        init = next((s_ for s_ in cls_node.body if isinstance(s_, FUNC) and s_.name == '__init__'), None)
+        if init is None:
+            return {}, []
+        prim = {st.targets[0].attr: dotted(st.value.func) for st in ast.walk(init) if isinstance(st, ast.Assign) and isinstance(st.value, ast.Call) and dotted(st.value.func) in PRIM and isinstance(st.targets[0], ast.Attribute) and dotted(st.targets[0].value) == 'self'}
+        bad = []
+        for fn in [s_ for s_ in cls_node.body if isinstance(s_, FUNC) and s_.name != '__init__']:
+            for st in ast.walk(fn):
+                if isinstance(st, ast.Assign):
+                    for t in st.targets:
+                        if isinstance(t, ast.Attribute) and dotted(t.value) == 'self' and t.attr in prim:
+                            bad.append((fn, st, prim[t.attr]))
+        return prim, bad
+    n = 0
+    for cn, ci in sorted(p.classes.items()):
+        if not any(cn.startswith(m + '.') for m in modules):
+            continue
+        prim, bad = rebinds(ci.node)
+        n += len(prim)
+        for fn, st, kind in bad:
+            R.bad(rule, f'{cn}.{fn.name} | {norm(st)[:50]}', f'{fn.name} replaces the {kind} that was created in __init__ (`{norm(st)[:60]}`): a task already waiting on the old object is never woken - every later set() / release() goes to the new one, also when the channel or its link goes away', p.loc(st))
+    ctl = ast.parse('class A:\n    def __init__(self):\n        self.ev = asyncio.Event()\n    def w(self):\n        self.ev = asyncio.Event()\n    def c(self):\n        self.ev.clear()\n').body[0]
+    R.check(len(rebinds(ctl)[1]) == 1 and n >= floor, rule, f'{", ".join(modules)} | synchronisation primitives', f'{n} primitives created in __init__, none replaced afterwards (positive control matched)', f'only {n} primitives found / control not matched')
